@@ -28,6 +28,9 @@ type wireSchema struct {
 	Ft   json.RawMessage `json:"ft,omitempty"`
 	// C04: the older version of the schema
 	Defs1 json.RawMessage `json:"defs1,omitempty"`
+	// schemas that are given as text (C12: constants; names) rather than as abstract definitions
+	Text string          `json:"text,omitempty"`
+	Nm   json.RawMessage `json:"nm,omitempty"`
 }
 
 type wireCase struct {
@@ -266,8 +269,8 @@ func runWirePart(c *Ctx, work string, sp *WireSpec) (Coverage, int, error) {
 	if len(run.cases) == 0 {
 		return nil, 2, infra("no cases generated")
 	}
-	// C12: the schema of constants, enums, [flags] expressions and opcodes (Gen_Literals.tla) under every option set in play
-	litText := ""
+	// C12: the schema of constants, enums, [flags] expressions and opcodes (Gen_Literals.tla) under every option set in play,
+	// and every naming of the small schemas of Gen_Inject's "names" part under the option sets that change how names are exposed
 	if sp.Op == "generate" && sp.replaySchema == nil {
 		lc, lgr, err := genLiteralsCase(c)
 		if err != nil {
@@ -275,16 +278,44 @@ func runWirePart(c *Ctx, work string, sp *WireSpec) (Coverage, int, error) {
 		}
 		gr.Distinct += lgr.Distinct
 		gr.Generated += lgr.Generated
-		litText = ast.Render(lc.Tokens, ast.Layouts[0])
 		masks := map[int][]string{}
 		for _, cs := range run.cases {
 			masks[cs.Mask] = cs.Opts
 		}
-		ls := &wireSchema{Sid: 900000, Defs: json.RawMessage("[]"), Tag: "constants, enums, flags, opcodes", Ctx: "consts", Ft: json.RawMessage(`{"k":"p","p":"bool"}`)}
+		boolT := json.RawMessage(`{"k":"p","p":"bool"}`)
+		ls := &wireSchema{Sid: 900000, Defs: json.RawMessage("[]"), Tag: "constants, enums, flags, opcodes", Ctx: "consts", Ft: boolT, Text: ast.Render(lc.Tokens, ast.Layouts[0])}
 		run.schemas = append(run.schemas, ls)
 		bySid[ls.Sid] = len(run.schemas) - 1
 		for m, opts := range masks {
 			run.cases = append(run.cases, &wireCase{Sid: ls.Sid, Vi: 1, Opts: opts, Mask: m, Root: "Root", V: json.RawMessage("[]"), Enc: []int{}})
+		}
+		ncs, ngr, err := genParseCases(c, "Gen_Inject", "NamesWellFormed Export", "  Parts = {\"names\"}\n")
+		if err != nil {
+			return nil, 2, err
+		}
+		gr.Distinct += ngr.Distinct
+		gr.Generated += ngr.Generated
+		nameMasks := [][]string{{}, {"AlwaysUsePointerReceivers", "PrivateDefinitions", "GenerateFieldTags", "GenerateUnsafeMethods", "SharedMemoryStrings"}}
+		nameMaskIds := []int{0, 31}
+		if c.Tier == "thorough" {
+			nameMasks = append(nameMasks, []string{"PrivateDefinitions"}, []string{"AlwaysUsePointerReceivers", "GenerateUnsafeMethods"})
+			nameMaskIds = append(nameMaskIds, 2, 9)
+		}
+		for i, nc := range ncs {
+			if nc.Part != "names" {
+				continue
+			}
+			var x struct {
+				Site string          `json:"site"`
+				Name json.RawMessage `json:"name"`
+			}
+			_ = json.Unmarshal(nc.Extra, &x)
+			ns := &wireSchema{Sid: 910000 + i, Defs: json.RawMessage("[]"), Tag: "identifier " + x.Site, Ctx: "names", Ft: boolT, Text: ast.Render(nc.Tokens, ast.Layouts[0]), Nm: x.Name}
+			run.schemas = append(run.schemas, ns)
+			bySid[ns.Sid] = len(run.schemas) - 1
+			for k, opts := range nameMasks {
+				run.cases = append(run.cases, &wireCase{Sid: ns.Sid, Vi: 1, Opts: opts, Mask: nameMaskIds[k], Root: "Root", V: json.RawMessage("[]"), Enc: []int{}})
+			}
 		}
 	}
 	// 2. the real generator on every (schema, option set)
@@ -303,9 +334,7 @@ func runWirePart(c *Ctx, work string, sp *WireSpec) (Coverage, int, error) {
 				return nil, 2, infra("schema %d: %v", cs.Sid, err)
 			}
 			p := &genrun.Plan{Pid: cs.Pid, Sid: cs.Sid, Schema: sch, Opts: cs.Opts}
-			if cs.Sid == 900000 {
-				p.Text = litText
-			}
+			p.Text = run.schemas[bySid[cs.Sid]].Text
 			plans[cs.Pid] = p
 			planList = append(planList, p)
 		}
